@@ -461,8 +461,25 @@ def handleStrLen (_c : Ctx) (cmd : List Bytes) : Prog Res :=
     | _ => .ret (.err (b "value at key " ++ key ++ b " is not a string"))
   | _ => .ret (.err wrongArgs)
 
-/-- :111 handleSubStr (SUBSTR / GETRANGE) — Go slice expression `value[start:end]` panics unless
-    0 ≤ start ≤ end ≤ len -/
+/-- index arithmetic of handleSubStr on the stored string — Go slice expression `value[start:end]`
+    panics unless 0 ≤ start ≤ end ≤ len -/
+def subStrPure (value : Bytes) (start end_ : Int) : Outcome Res :=
+  let len : Int := value.length
+  let start := if start < 0 then len - start.natAbs else start
+  let end_ := if end_ < 0 then len - end_.natAbs else end_
+  let end_ := if end_ ≥ 0 && end_ ≥ start then end_ + 1 else end_
+  let end_ := if end_ > len then len else end_
+  let reversed := decide (start > end_)
+  let lo := if reversed then end_ else start
+  let hi := if reversed then start else end_
+  if lo < 0 || hi > len then .panic "slice bounds out of range" else
+  let str := (value.drop lo.toNat).take (hi - lo).toNat
+  if reversed then
+    if !isAscii str then .unmod "reversed GETRANGE on non-ASCII (rune conversion)"
+    else .done (.ok (bulkStr str.reverse))
+  else .done (.ok (bulkStr str))
+
+/-- :111 handleSubStr (SUBSTR / GETRANGE) -/
 def handleSubStr (_c : Ctx) (cmd : List Bytes) : Prog Res :=
   match cmd with
   | [_, key, st, en] =>
@@ -476,20 +493,7 @@ def handleSubStr (_c : Ctx) (cmd : List Bytes) : Prog Res :=
       if !(ex.headD false) then .ret (.err (b "key " ++ key ++ b " does not exist")) else
       .call (.getValues [key]) fun (vs : List Val) =>
       match vs.headD .nil with
-      | .str value =>
-        let len : Int := value.length
-        let start := if start < 0 then len - start.natAbs else start
-        let end_ := if end_ < 0 then len - end_.natAbs else end_
-        let end_ := if end_ ≥ 0 && end_ ≥ start then end_ + 1 else end_
-        let end_ := if end_ > len then len else end_
-        let reversed := decide (start > end_)
-        let (start, end_) := if reversed then (end_, start) else (start, end_)
-        if start < 0 || end_ > len then .panic "slice bounds out of range" else
-        let str := (value.drop start.toNat).take (end_ - start).toNat
-        if reversed then
-          if !isAscii str then .unmod "reversed GETRANGE on non-ASCII (rune conversion)"
-          else .ret (.ok (bulkStr str.reverse))
-        else .ret (.ok (bulkStr str))
+      | .str value => Prog.ofOutcome (subStrPure value start end_)
       | _ => .ret (.err (b "value at key " ++ key ++ b " is not a string"))
   | _ => .ret (.err wrongArgs)
 
